@@ -75,6 +75,7 @@ type World struct {
 	ContractList []*Contract
 	Specs     map[*types.Func]*SpecFn
 	SpecByName map[string]*SpecFn // pkgpath.name
+	layer     string // active contract layer for VCs created from now on
 	Ghosts    map[*types.Func]string
 	Lemmas    []*Lemma
 	Overlays  map[string]string // path -> content
